@@ -81,6 +81,19 @@ def check_case(case, ctr):
             bad('all-cross-one-concept', 1, len(got))
     if ref.closure_objs(()):
         ctr['hit_nonempty_bottom'] += 1
+    # a sub-lattice requested (or its construction failing) first must not change context.lattice
+    if case.variant == 'fresh' and case.labeling == space.ASC and case.n * case.m <= 9:
+        from concepts import lattices
+        c2 = case.fresh_ctx()
+        for o in case.objs[:2]:
+            try:
+                lattices.Lattice(c2, infimum=(o,))
+            except Exception:
+                pass        # outside the property; only its effect on c2.lattice matters
+        got2 = {(frozenset(c.extent), frozenset(c.intent)) for c in c2.lattice}
+        ctr['calls'] += 1
+        if got2 != exp or len(c2.lattice) != len(exp):
+            bad('concept-set-after-sublattice-request', sorted(map(_pp, exp)), sorted(map(_pp, got2)))
     # interleaving with sibling contexts over the same labels (lazy lattice computed later)
     if case.labeling == space.ASC and case.n * case.m <= 16:
         older, a, newer, iref = e1.sibling_schedule(case)
@@ -102,7 +115,7 @@ def _pp(pair):
 
 
 def run_shard(shard, tier):
-    return e1.run_shard_generic(shard, tier, ID, check_case)
+    return e1.run_shard_generic(shard, tier, ID, check_case, variants=('truthy-cells',))
 
 
 def main(tier):
